@@ -127,6 +127,10 @@ def k1_nulls_dups_type(vals: List[Optional[int]], max_nulls: int, which: int) ->
     pre: 1 <= len(vals) <= P['rows'] and 0 <= max_nulls <= 2 and 0 <= which < 3
     post: __return__
     """
+    return nulls_dups_type_body(vals, max_nulls, which)
+
+
+def nulls_dups_type_body(vals, max_nulls, which):
     with symdf.patched(pc):
         v = pc.PandasConstraintVerifier(SymFrame({'c': symdf.int_series(vals)}), type_checking='strict')
         if which == 0:
@@ -152,6 +156,14 @@ def k1_nulls_dups_type(vals: List[Optional[int]], max_nulls: int, which: int) ->
         return _same_flags(got, [not d for d in dup])
     # type failure: every record
     return (not ok) and _same_flags(got, [False] * len(vals))
+
+
+def k1_dups(vals: List[Optional[int]]) -> bool:
+    """
+    pre: 1 <= len(vals) <= P['rows']
+    post: __return__
+    """
+    return nulls_dups_type_body(vals, 0, 1)
 
 
 def k1_strings(vals: List[Optional[str]], which: int, n: int, a1: str) -> bool:
@@ -370,6 +382,9 @@ def _obs():
                       'failure flags every member of a duplicated group and no null; a type failure flags every record',
                       'int column of 1..%d rows; max_nulls 0..2' % rows, param={'rows': rows}, timeout=to, tier=tier,
                       stubs=['symdf']))
+    obs.append(Ob('K1', 'k1_dups', 'no_duplicates failure on a column long enough to hold a duplicated pair AND several '
+                  'nulls: every member of a duplicated group is flagged false, no null record is', 'int column of 1..4 '
+                  'rows, ANY ints/nulls', param={'rows': 4}, timeout=400, tier=Q, stubs=['symdf']))
     for rows, tier, to in ((2, Q, 400), (3, T, 2400)):
         obs.append(Ob('K1', 'k1_strings', 'min_length / max_length / allowed_values / rex failures flag exactly the '
                       'non-null records violating them', 'object column of 1..%d rows of symbolic strings len<=2 or '
